@@ -926,8 +926,55 @@ func suiteDateFun(o *Out, thorough bool, seed int64) {
 			o.Fail(nt, bad)
 		}
 	}
+	// toDay on a day whose zone offset changed since local midnight (a daylight-saving switch earlier today): a zone is
+	// built around the current instant (TZif data: standard time until two hours ago, one hour more since; and the
+	// reverse), installed as the local zone, and toDay() must be 00:00:00 of today's civil date in that zone
+	for _, jump := range []int{3600, -3600, 1800} {
+		nowU := time.Now().UTC()
+		// base offset such that the local clock reads about 13:00 now
+		base := (13-nowU.Hour())*3600 - nowU.Minute()*60
+		loc, err := switchZone(nowU.Add(-2*time.Hour).Unix(), base-jump, base)
+		nt := fmt.Sprintf("NOP\tdst-today\t%d", jump)
+		o.Case(nt, "-", true)
+		if err != nil {
+			o.Notes = append(o.Notes, "could not build the switch-day zone: "+err.Error())
+			continue
+		}
+		time.Local = loc
+		v, e := formula.NewRunner().Resolve(context.Background(), rollSrc.Expression)
+		n2 := time.Now().In(loc)
+		want := time.Date(n2.Year(), n2.Month(), n2.Day(), 0, 0, 0, 0, loc)
+		got, ok := v.(time.Time)
+		if e != nil || !ok {
+			o.Fail(nt, fmt.Sprintf("toDay() failed: %v %v", v, e))
+		} else if !got.Equal(want) {
+			o.Fail(nt, fmt.Sprintf("toDay() = %s on a day whose offset changed two hours ago; local midnight is %s", got.Format("2006-01-02 15:04:05 -0700"), want.Format("2006-01-02 15:04:05 -0700")))
+		}
+	}
 	time.Local = savedLocal
 	setLocal(0)
+}
+
+// switchZone builds a time zone (TZif version 1 data) with offset `before` until the instant `at` and `after` from then on
+func switchZone(at int64, before, after int) (*time.Location, error) {
+	var b []byte
+	be32 := func(v int32) { b = append(b, byte(v>>24), byte(v>>16), byte(v>>8), byte(v)) }
+	b = append(b, 'T', 'Z', 'i', 'f', 0)
+	b = append(b, make([]byte, 15)...)
+	be32(0) // isutcnt
+	be32(0) // isstdcnt
+	be32(0) // leapcnt
+	be32(1) // timecnt
+	be32(2) // typecnt
+	be32(8) // charcnt
+	be32(int32(at))
+	b = append(b, 1)  // the transition switches to type 1
+	be32(int32(before))
+	b = append(b, 0, 0)
+	be32(int32(after))
+	b = append(b, 1, 4)
+	b = append(b, 'S', 'T', 'D', 0, 'D', 'S', 'T', 0)
+	return time.LoadLocationFromTZData("Switch/Day", b)
 }
 
 // ---------- C08: purity over histories ----------
@@ -1170,9 +1217,18 @@ func suitePurity(o *Out, thorough bool, seed int64) {
 				}
 			}
 		}
-		s1, e1 := formula.ParseSourceCode([]byte(text))
+		// the texts live next to each other in one buffer, as a caller with an arena of formulas has them: parsing
+		// one may not touch its neighbours
+		other := purityPool[r.Intn(len(purityPool))]
+		arenaBuf := []byte(text + other + text)
+		t1, t2, t3 := arenaBuf[:len(text)], arenaBuf[len(text):len(text)+len(other)], arenaBuf[len(text)+len(other):]
+		s1, e1 := formula.ParseSourceCode(t1)
+		formula.ParseSourceCode(t2)
 		noise()
-		s2, e2 := formula.ParseSourceCode([]byte(text))
+		s2, e2 := formula.ParseSourceCode(t3)
+		if string(arenaBuf) != text+other+text {
+			o.Fail(line, fmt.Sprintf("parsing changed the caller's buffer around the text: %q became %q", text+other+text, string(arenaBuf)))
+		}
 		if (e1 == nil) != (e2 == nil) || (e1 != nil && e1.Error() != e2.Error()) {
 			o.Fail(line, "parsing the same text twice gave different errors")
 		}
